@@ -30,6 +30,19 @@ func checkStructure(m *model, c Case, step int) error {
 	if want := wantRibNodes(m); got != want {
 		return fmt.Errorf("step %d RIB tree holds %d nodes, live routes require %d", step, got, want)
 	}
+	// nothing beyond what the live routes require: the FIB holds exactly as many next-hop records
+	// as the flattening of the live routes prescribes (none once everything is un-registered)
+	wantHops := 0
+	for _, h := range m.fib() {
+		wantHops += len(h)
+	}
+	gotHops := 0
+	for _, e := range table.FibStrategyTable.GetAllFIBEntries() {
+		gotHops += len(e.GetNextHops())
+	}
+	if gotHops != wantHops {
+		return fmt.Errorf("step %d FIB holds %d next-hop records, the live routes require %d", step, gotHops, wantHops)
+	}
 	fs := table.VerifFibStatsOf(table.FibStrategyTable)
 	prefixesWithRoutes := map[string]bool{}
 	for k := range m.routes {
